@@ -4,5 +4,5 @@ VERIF = os.path.dirname(os.path.dirname(os.path.abspath(__file__)))
 tbl = subprocess.run(["python3", os.path.join(VERIF, "lib", "seeded_table.py")], capture_output=True, text=True).stdout
 p = os.path.join(VERIF, "DESIGN.md")
 s = open(p).read()
-s = re.sub(r"<!-- SEEDED-TABLE-BEGIN -->.*<!-- SEEDED-TABLE-END -->", "<!-- SEEDED-TABLE-BEGIN -->\n" + tbl + "<!-- SEEDED-TABLE-END -->", s, flags=re.S)
+s = re.sub(r"<!-- SEEDED-TABLE-BEGIN -->.*<!-- SEEDED-TABLE-END -->", lambda m: "<!-- SEEDED-TABLE-BEGIN -->\n" + tbl + "<!-- SEEDED-TABLE-END -->", s, flags=re.S)
 open(p, "w").write(s)
